@@ -498,12 +498,18 @@ def run_timescales(case):
 # --------------------------------------------------------------------------
 # clause 4/5: eigenspectrum
 
-FORMATS = ["ndarray", "csr_matrix", "coo_matrix", "csc_matrix", "csr_array", "coo_array"]
+FORMATS = ["ndarray", "csr_matrix", "coo_matrix", "csc_matrix", "csr_array", "coo_array", "npmatrix"]
 
 
 def as_format(T, fmt):
     if fmt == "ndarray":
         return np.array(dense(T), dtype=float)
+    if fmt == "npmatrix":
+        # what `tprobs_.todense()` gives (the idiom of the library's own tests): ndarray sub-class
+        import warnings
+        with warnings.catch_warnings():
+            warnings.simplefilter("ignore")
+            return np.matrix(np.array(dense(T), dtype=float))
     return getattr(sp, fmt)(T)
 
 
@@ -607,6 +613,9 @@ def run_spectrum(case):
     require(np.array_equal(dense(T), Tcopy), "eigenspectrum modified its input")
 
     m = n if case["n_eigs"] is None else min(case["n_eigs"], n)
+    require(np.shape(vecs[:, 0]) == (n,) and np.shape(vals) == (min(n, n if case["n_eigs"] is None else case["n_eigs"]),),
+            "eigenvalues / the leading eigenvector are not 1-D arrays (an eigenvector column must be usable as a vector)",
+            vals_shape=np.shape(vals), column_shape=np.shape(vecs[:, 0]), type=type(vecs).__name__)
     vals, vecs = np.asarray(vals), np.asarray(vecs)
     require(vals.dtype.kind == "f" and vecs.dtype.kind == "f", "eigenvalues / eigenvectors are not real arrays",
             vals=str(vals.dtype), vecs=str(vecs.dtype))
@@ -859,11 +868,64 @@ def run_refit(case):
                            "trim=%s" % case["trim"], "sliding=%s" % case["sliding"]])
 
 
+# --------------------------------------------------------------------------
+# a thousand states (seeded): estimator == function pipeline, with one-way bridges / source and sink states
+
+@st.composite
+def thousand_case(draw):
+    return {"n": draw(st.sampled_from([999, 1000, 1001, 1200])), "seed": draw(st.integers(0, 2 ** 31 - 1)),
+            "extras": draw(st.sampled_from(["none", "source", "sink", "one_way_bridge", "source_and_sink"])),
+            "method": draw(st.sampled_from(["name:normalize", "name:transpose"])), "lag": draw(st.sampled_from([1, 1, 2])),
+            "how": draw(st.sampled_from(["ragged", "padded"])), "sliding": draw(st.booleans())}
+
+
+def run_thousand(case):
+    rng = np.random.RandomState(case["seed"])            # seed drawn by Hypothesis
+    n, lag = case["n"], case["lag"]
+    core = n - 4
+    # a long walk that visits every core state many times (strongly connected core) ...
+    walk = np.concatenate([rng.permutation(core) for _ in range(4)] + [np.arange(core), np.arange(core)[::-1]])
+    if lag == 2:
+        walk = np.repeat(walk, 2)
+    trajs = [walk.tolist()]
+    ex = case["extras"]
+    s1, s2, s3, s4 = core, core + 1, core + 2, core + 3
+    rep = lag
+    if ex in ("source", "source_and_sink"):
+        trajs.append([s1] * rep + [5] * rep + [6] * rep)             # s1 is only ever left
+    if ex in ("sink", "source_and_sink"):
+        trajs.append([7] * rep + [8] * rep + [s2] * rep)             # s2 is only ever entered
+    if ex == "one_way_bridge":
+        trajs.append([9] * rep + [s3] * rep + [s4] * rep + [s3] * rep + [s4] * rep)   # core -> {s3, s4}, never back
+    a = make_assigns(trajs, case["how"])
+    fn = method_fn(case["method"])
+    m = MSM(lag_time=lag, method=METHODS[case["method"]], trim=True, sliding_window=case["sliding"], max_n_states=n)
+    with np.errstate(all="ignore"):
+        m.fit(a)
+        C = assigns_to_counts(a, lag, max_n_states=n, sliding_window=case["sliding"])
+        mp, Ct = trim_disconnected(C)
+        Cp, Tp, pip = fn(Ct)
+    want_map = mapping_dict(mp)
+    require(mapping_dict(m.mapping_) == want_map, "state mapping of a %d-state model differs from trim_disconnected" % n,
+            n_kept=len(mapping_dict(m.mapping_)), n_want=len(want_map), extras=ex)
+    Cm = dense(m.tcounts_)
+    require(Cm.shape == dense(Cp).shape and np.array_equal(Cm, dense(Cp)), "MSM counts differ from the function pipeline (%d states)" % n)
+    require(close(dense(m.tprobs_), dense(Tp), TOL_SAME), "MSM transition probabilities differ from the function pipeline (%d states)" % n)
+    require(close(np.asarray(m.eq_probs_), np.asarray(pip), 1e-9), "MSM populations differ from the function pipeline (%d states)" % n)
+    # independent anchor: the kept set is the strongly connected core
+    kept = sorted(want_map.values())
+    require(kept == list(range(core)), "trimming did not keep exactly the strongly connected core", n_kept=len(kept), core=core)
+    return Info(n >= 1000 and ex != "none", ["thousand_n=%d" % n, "thousand_extras=" + ex, "thousand_method=" + case["method"]],
+                key=[case[k_] for k_ in sorted(case)])
+
+
 CLAUSES = [
     Clause("pipeline", assign_case(), run_pipeline, quick=640, thorough=8000, exhaustive=exhaustive_configs,
            doc="MSM(**cfg).fit(a) == builder(trim?(assigns_to_counts(a, lag, sliding, max_n_states)))"),
     Clause("pipeline_missing_frames", holes_case(), run_pipeline_holes, quick=320, thorough=4000,
            doc="MSM.fit == function pipeline also when -1 entries precede assigned frames"),
+    Clause("pipeline_thousand_states", thousand_case(), run_thousand, quick=12, thorough=120,
+           doc="999..1200 states, core + source / sink / one-way-bridge states, trim=True: estimator == pipeline == core"),
     Clause("refit", refit_case(), run_refit, quick=300, thorough=4000,
            doc="fitting the same estimator object again equals the pipeline on the new data"),
     Clause("roundtrip", assign_case(), run_roundtrip, quick=320, thorough=4000,
